@@ -23,17 +23,33 @@ from harness import core
 
 PROP = 'C06'
 MODULE = 'Props.C06'
-THEOREMS = ['C06_dump_on_every_outcome', 'C06_content', 'C06_content_closed_stream',
-            'C06_content_nonvacuous', 'C06_explicit_atexit', 'C06_explicit_nonvacuous']
+THEOREMS = ['C06_dump_on_every_outcome', 'C06_flush_before_dump_would_lose_results', 'C06_content',
+            'C06_content_closed_stream', 'C06_content_nonvacuous', 'C06_explicit_atexit_partial',
+            'C06_explicit_stdout_unusable_refuted', 'C06_explicit_nonvacuous']
 LEVEL = 'proof'
 
 KINDS = ['none', 'exit', 'kbd', 'exc']
 KCODE = {'none': 0, 'exit': 1, 'kbd': 2, 'exc': 3}
 MODES = ['l', 'lp', 'b', 'plain', 'lm', 'pm', 'explicit']
 TICK = 100
+# how the program leaves its standard streams when it ends
+OUTS = ['ok', 'none', 'closed', 'unwritable', 'errnone']
+OUTCODE = {'ok': 0, 'errnone': 0, 'none': 1, 'closed': 2, 'unwritable': 2}
+F_EXPL = 'C06-explicit-show-needs-stdout'
 
 HEADER = '''import sys
-K = int(sys.argv[1]); KIND = sys.argv[2]; DECO = sys.argv[3]
+K = int(sys.argv[1]); KIND = sys.argv[2]; DECO = sys.argv[3]; OUT = sys.argv[4]
+LEAVE = """
+if OUT == 'none':
+    sys.stdout = None
+elif OUT == 'closed':
+    sys.stdout = open('progress.log', 'w')
+    sys.stdout.close()
+elif OUT == 'unwritable':
+    sys.stdout = open(__file__)
+elif OUT == 'errnone':
+    sys.stderr = None
+"""
 if DECO == 'explicit':
     from line_profiler import profile as deco
 elif DECO == 'builtin':
@@ -47,6 +63,7 @@ def tick(v=0):
     global _n
     _n += 1
     if _n == K:
+        exec(LEAVE, globals())
         if KIND == 'exit':
             sys.exit(3)
         if KIND == 'kbd':
@@ -108,7 +125,7 @@ def gen_program(rnd, nfun, budget, fin):
             body.insert(rnd.choice(tops + [len(body)]), '    x = tick(f%d(x %% 3))' % (i + 1))
         lines += body
         lines.append('    return tick(x)')
-    lines += ['', '', 'f0(%d)' % rnd.randrange(1, 4), "print('END', _n)"]
+    lines += ['', '', 'f0(%d)' % rnd.randrange(1, 4), "print('END', _n)", 'exec(LEAVE, globals())']
     return '\n'.join(lines) + '\n'
 
 
@@ -123,15 +140,15 @@ def sub(cmd, cwd, env, timeout=120):
         return dict(rc='timeout', out='', err='TIMEOUT', wall=time.monotonic() - t0)
 
 
-def oracle(base, prog, k, kind):
-    d = os.path.join(base, 'oracle_%s_%d_%s' % (prog['name'], k, kind))
+def oracle(base, prog, k, kind, out='ok'):
+    d = os.path.join(base, 'oracle_%s_%d_%s_%s' % (prog['name'], k, kind, out))
     os.makedirs(d, exist_ok=True)
     f = os.path.join(d, prog['file'])
     with open(f, 'w') as fh:
         fh.write(prog['text'])
     env = dict(os.environ, PYTHONPATH=str(core.VERIF), PYTHONDONTWRITEBYTECODE='1', PYTHONHASHSEED='0')
     env.pop('LINE_PROFILE', None)
-    r = sub([core.PY, '-m', 'harness.drivers.c06_oracle', prog['file'], str(k), kind], d, env)
+    r = sub([core.PY, '-m', 'harness.drivers.c06_oracle', prog['file'], str(k), kind, out], d, env)
     shutil.rmtree(d, ignore_errors=True)
     m = re.search(r'^EVENTS (.*)$', r['out'], flags=re.M)
     if not m:
@@ -153,24 +170,24 @@ def conv(events):
 ENDED = {'none': 'return', 'exit': 'exit:3', 'kbd': 'kbd', 'exc': 'exc:ValueError'}
 
 
-def mode_cmd(mode, prog, k, kind):
+def mode_cmd(mode, prog, k, kind, out='ok'):
     f, mod = prog['file'], prog['file'][:-3]
     tail = [str(k), kind]
     kp = [core.PY, '-m', 'kernprof']
     if mode == 'l':
-        return kp + ['-l', f] + tail + ['builtin'], f + '.lprof', {}
+        return kp + ['-l', f] + tail + ['builtin', out], f + '.lprof', {}
     if mode == 'lp':
-        return kp + ['-l', '-p', f, f] + tail + ['nodeco'], f + '.lprof', {}
+        return kp + ['-l', '-p', f, f] + tail + ['nodeco', out], f + '.lprof', {}
     if mode == 'b':
-        return kp + ['-b', f] + tail + ['builtin'], f + '.prof', {}
+        return kp + ['-b', f] + tail + ['builtin', out], f + '.prof', {}
     if mode == 'plain':
-        return kp + [f] + tail + ['nodeco'], f + '.prof', {}
+        return kp + [f] + tail + ['nodeco', out], f + '.prof', {}
     if mode == 'lm':
-        return kp + ['-l', '-m', mod] + tail + ['builtin'], mod + '.lprof', {}
+        return kp + ['-l', '-m', mod] + tail + ['builtin', out], mod + '.lprof', {}
     if mode == 'pm':
-        return kp + ['-m', mod] + tail + ['nodeco'], mod + '.prof', {}
+        return kp + ['-m', mod] + tail + ['nodeco', out], mod + '.prof', {}
     if mode == 'explicit':
-        return [core.PY, f] + tail + ['explicit'], 'profile_output.lprof', {'LINE_PROFILE': '1'}
+        return [core.PY, f] + tail + ['explicit', out], 'profile_output.lprof', {'LINE_PROFILE': '1'}
     raise ValueError(mode)
 
 
@@ -180,12 +197,12 @@ def run_case(impl, base, idx, c, progs):
     os.makedirs(d)
     with open(os.path.join(d, prog['file']), 'w') as fh:
         fh.write(prog['text'])
-    cmd, outfile, extra = mode_cmd(c['mode'], prog, c['k'], c['kind'])
+    cmd, outfile, extra = mode_cmd(c['mode'], prog, c['k'], c['kind'], c.get('out', 'ok'))
     env = core.impl_env(impl, **extra)
     r = sub(cmd, d, env)
     ref = None
     if c['mode'] == 'explicit':
-        ref = sub([core.PY, prog['file'], str(c['k']), c['kind'], 'nodeco'], d, core.impl_env(impl))
+        ref = sub([core.PY, prog['file'], str(c['k']), c['kind'], 'nodeco', c.get('out', 'ok')], d, core.impl_env(impl))
     return dict(c=c, dir=d, cmd=cmd[1:], outfile=os.path.join(d, outfile), outname=outfile, r=r, ref=ref,
                 listing=sorted(os.listdir(d)))
 
@@ -232,11 +249,18 @@ def analyse(res_case, loaded, prog, ex, ended):
     mode = c['mode']
     wrote = [l for l in r['out'].splitlines() if l.startswith('Wrote profile results to ')]
     want_line = 'Wrote profile results to ' + res_case['outname']
-    dumps = sum(1 for l in wrote if l == want_line)
-    if dumps != 1:
+    out = c.get('out', 'ok')
+    visible = out in ('ok', 'errnone')        # can kernprof's closing lines be seen on the captured stdout?
+    dumps = sum(1 for l in wrote if l == want_line) if visible else int(loaded['exists'])
+    if visible and dumps != 1:
         fails.append('expected exactly one %r line, stdout has %r' % (want_line, wrote))
     if not loaded['exists']:
-        fails.append('the statistics file %s was not written (directory: %r)' % (res_case['outname'], res_case['listing']))
+        fid = None
+        if (mode == 'explicit' and out in ('none', 'closed', 'unwritable')
+                and not any(x.startswith('profile_output') for x in res_case['listing'])
+                and (out != 'ok') and ('show' in r['err'] or out == 'closed' or r['err'] == '')):
+            fid = F_EXPL
+        fails.append(('the statistics file %s was not written (directory: %r)' % (res_case['outname'], res_case['listing']), fid))
     elif not loaded['ok']:
         fails.append('the statistics file is not loadable: %s' % loaded['err'])
     got, extra = impl_counts(mode, prog, loaded) if loaded['ok'] else ({}, [])
@@ -246,16 +270,17 @@ def analyse(res_case, loaded, prog, ex, ended):
         fails.append('file content differs from the execution counts of the executed prefix: {key: (file, oracle)} = %r' % diff)
     if extra:
         fails.append('statistics for functions the program does not define: %r' % extra)
-    if mode == 'explicit':
+    if mode == 'explicit' and loaded['exists']:
         ls = res_case['listing']
         if 'profile_output.txt' not in ls or not any(re.match(r'profile_output_\d{4}-\d\d-\d\dT\d{6}\.txt$', x) for x in ls):
             fails.append('explicit mode text outputs missing: %r' % ls)
-        if 'Timer unit:' not in r['out']:
+        if visible and 'Timer unit:' not in r['out']:
             fails.append('explicit mode printed no report on stdout')
         if res_case['ref'] and r['rc'] != res_case['ref']['rc']:
             fails.append('exit status %r differs from the unprofiled run %r' % (r['rc'], res_case['ref']['rc']))
     if c['kind'] == 'none' and ('END %d' % prog['N']) not in r['out']:
         fails.append('the program did not run to its end: %r' % r['out'][-200:])
+    fails = [f if isinstance(f, tuple) else (f, None) for f in fails]
     return fails, dict(dumps=dumps, got=got, rc=r['rc'])
 
 
@@ -340,13 +365,20 @@ def make_cases(rnd, tier, progs):
                 cases.append(dict(p=pi, k=0, kind='none', mode=mode))
                 for kind in KINDS[1:]:
                     cases.append(dict(p=pi, k=rnd.choice(ks), kind=kind, mode=mode))
+        # the program ends with its standard streams closed / replaced
+        for mode in MODES:
+            for out in OUTS[1:]:
+                picks = [(rnd.choice(KINDS), rnd.choice(ks))] if tier == 'quick' else \
+                    [(kind, rnd.choice(ks)) for kind in KINDS for _ in range(2)]
+                for kind, k in sorted(set(picks)):
+                    cases.append(dict(p=pi, k=0 if kind == 'none' else k, kind=kind, mode=mode, out=out))
     return cases
 
 
 def evaluate(impl, base, cases, progs, tag):
-    keys = sorted({(c['p'], c['k'], c['kind']) for c in cases})
+    keys = sorted({(c['p'], c['k'], c['kind'], c.get('out', 'ok')) for c in cases})
     with ThreadPoolExecutor(max_workers=core.NCPU) as ex:
-        ors = list(ex.map(lambda k: oracle(base, progs[k[0]], k[1], k[2]), keys))
+        ors = list(ex.map(lambda k: oracle(base, progs[k[0]], k[1], k[2], k[3]), keys))
     orc = {}
     for key, o in zip(keys, ors):
         if o['ended'] != ENDED[key[2]]:
@@ -393,12 +425,12 @@ def run(tier, seed):
     for i, (r, ld) in enumerate(zip(rs, loaded)):
         c = r['c']
         prog = progs[c['p']]
-        ex = orc[(c['p'], c['k'], c['kind'])]
+        ex = orc[(c['p'], c['k'], c['kind'], c.get('out', 'ok'))]
         fails, obs = analyse(r, ld, prog, ex, None)
         obs_all.append(obs)
-        for why in fails:
+        for why, fid_ in fails:
             py_fail.add(i)
-            res.spec_fails.append(dict(case=dict(c, seed=seed, tier=tier, program=prog['text']), impl=brief(r, obs), why=why, finding=None))
+            res.spec_fails.append(dict(case=dict(c, seed=seed, tier=tier, program=prog['text']), impl=brief(r, obs), why=why, finding=fid_))
         if r['r']['rc'] == 'timeout':
             res.infra_errors.append('case %r timed out' % c)
 
@@ -414,22 +446,22 @@ def run(tier, seed):
                 exdefs, rowtxt = {}, []
                 for i in chunk:
                     c = rs[i]['c']
-                    key = (c['k'], c['kind'])
-                    ex = orc[(pi, c['k'], c['kind'])]
+                    key = (c['k'], c['kind'], c.get('out', 'ok'))
+                    ex = orc[(pi,) + key]
                     if key not in exdefs:
-                        exdefs[key] = 'EX_%d_%s' % key
+                        exdefs[key] = 'EX_%d_%s_%s' % key
                         body += 'Definition %s : list pev := %s.\n' % (exdefs[key], coq_evs(ex))
                     m = -1 if prog['fin'] else common_prefix(strip(ex), strip(prog['full']))
                     o = obs_all[i]
                     rc = o['rc'] if isinstance(o['rc'], int) else -99
                     regl = '[' + '; '.join(str(x) for x in regset(c['mode'], prog)) + ']%Z'
                     if c['mode'] == 'explicit':
-                        rowtxt.append('(explicit_case_ok 100 FULL %s (%d)%%Z %d %s %s %d)' % (
-                            exdefs[key], m, KCODE[c['kind']], regl, coq_hits(o['got']), o['dumps']))
+                        rowtxt.append('(explicit_case_ok 100 FULL %s (%d)%%Z %d %d %s %s %d)' % (
+                            exdefs[key], m, KCODE[c['kind']], OUTCODE[key[2]], regl, coq_hits(o['got']), o['dumps']))
                     else:
                         cprof = c['mode'] in ('b', 'plain', 'pm')
-                        rowtxt.append('(kern_case_ok 100 FULL %s (%d)%%Z %d %s %s %s %s %s (%d)%%Z %d)' % (
-                            exdefs[key], m, KCODE[c['kind']], regl, core.coq_bool(c['mode'] in ('plain', 'pm')),
+                        rowtxt.append('(kern_case_ok 100 FULL %s (%d)%%Z %d %d %s %s %s %s %s (%d)%%Z %d)' % (
+                            exdefs[key], m, KCODE[c['kind']], OUTCODE[key[2]], regl, core.coq_bool(c['mode'] in ('plain', 'pm')),
                             core.coq_bool(cprof), coq_hits({} if cprof else o['got']), coq_calls(o['got'] if cprof else {}),
                             rc, o['dumps']))
                 body += 'Definition rows : list (bool * bool * bool) := [\n' + ';\n'.join(rowtxt) + '].\n'
@@ -476,17 +508,19 @@ def run(tier, seed):
             rs2, loaded2, orc2 = evaluate(impl, base2, cases2, progs2, 'search')
             for r, ld in zip(rs2, loaded2):
                 c = r['c']
-                fails, obs = analyse(r, ld, progs2[c['p']], orc2[(c['p'], c['k'], c['kind'])], None)
+                fails, obs = analyse(r, ld, progs2[c['p']], orc2[(c['p'], c['k'], c['kind'], c.get('out', 'ok'))], None)
+                fails = [f for f in fails if f[1] is None]
                 if fails:
                     return dict(case=dict(c, seed=seed + 1, tier='search', program=progs2[c['p']]['text']), impl=brief(r, obs),
-                                why=fails[0] + ' (search)', finding=None)
+                                why=fails[0][0] + ' (search)', finding=None)
         finally:
             shutil.rmtree(base2, ignore_errors=True)
         return None
     res.search = search
 
     hist = collections.Counter((r['c']['mode'], r['c']['kind']) for r in rs)
-    distinct = {(r['c']['p'], r['c']['k'], r['c']['kind'], r['c']['mode']) for r, o in zip(rs, obs_all) if o['got']}
+    outhist = collections.Counter((r['c']['mode'], r['c'].get('out', 'ok')) for r in rs)
+    distinct = {(r['c']['p'], r['c']['k'], r['c']['kind'], r['c']['mode'], r['c'].get('out', 'ok')) for r, o in zip(rs, obs_all) if o['got']}
     res.coverage = dict(
         evaluations=len(rs), oracle_runs=len(orc), distinct_nontrivial=len(distinct),
         rule='one evaluation = one kernprof / LINE_PROFILE=1 subprocess on a generated program with the trigger at statement K, '
@@ -498,10 +532,12 @@ def run(tier, seed):
         programs=[dict(name=p['name'], functions=p['nfun'], statements_executed=p['N'], events=len(p['full']),
                        has_finally=p['fin']) for p in progs],
         mode_kind_histogram={'%s/%s' % k: v for k, v in sorted(hist.items())},
+        mode_stdout_state_histogram={'%s/%s' % k: v for k, v in sorted(outhist.items())},
         hypothesis_holds_on=dict(C06_content=sum(1 for r in rs if not progs[r['c']['p']]['fin']),
                                  C06_content_closed_stream=len(rs),
                                  C06_dump_on_every_outcome=sum(1 for r in rs if r['c']['mode'] != 'explicit'),
-                                 C06_explicit_atexit=sum(1 for r in rs if r['c']['mode'] == 'explicit')),
+                                 C06_explicit_atexit_partial=sum(1 for r in rs if r['c']['mode'] == 'explicit' and OUTCODE[r['c'].get('out', 'ok')] == 0),
+                                 stdout_unusable_at_end=sum(1 for r in rs if OUTCODE[r['c'].get('out', 'ok')] != 0)),
         samples=[dict(case=rs[i]['c'], impl=brief(rs[i], obs_all[i])) for i in (0, len(rs) // 2, len(rs) - 1)],
         translated=['line_profiler/explicit_profiler.py::GlobalProfiler methods -> Gen/GlobalProfiler.v (C06_explicit_atexit)'],
         trusted_base_extra=[
@@ -531,9 +567,10 @@ def replay(path):
         o = oracle(base, prog, 0, 'none')
         prog['full'] = conv(o['events'])
         prog['N'] = sum(1 for e in prog['full'] if e == ('c', TICK))
-        case = dict(p=0, k=c['k'], kind=c['kind'], mode=c['mode'])
+        case = dict(p=0, k=c['k'], kind=c['kind'], mode=c['mode'], out=c.get('out', 'ok'))
         rs, loaded, orc = evaluate(impl, base, [case], [prog], 'replay')
-        fails, obs = analyse(rs[0], loaded[0], prog, orc[(0, c['k'], c['kind'])], None)
+        fails, obs = analyse(rs[0], loaded[0], prog, orc[(0, c['k'], c['kind'], case['out'])], None)
+        fails = [dict(why=f[0], finding=f[1]) for f in fails]
         print(json.dumps(dict(case=case, cmd=rs[0]['cmd'], rc=rs[0]['r']['rc'], stdout=rs[0]['r']['out'][-600:],
                               stderr=rs[0]['r']['err'][-600:], files=rs[0]['listing'], failing=fails, holds=not fails), indent=1))
         return 1 if fails else 0
